@@ -337,6 +337,9 @@ Proof.
   revert i; induction l as [|x l IH]; intros [|i]; cbn [upd nth]; auto. now rewrite IH.
 Qed.
 
+Lemma upd_same' {A} (l : list A) i d x : nth i l d = x -> upd l i x = l.
+Proof. intros <-. apply upd_same. Qed.
+
 Lemma keeps_refl h vs ex i : Inv h vs ex -> keeps h vs ex i (h, nth i vs sb0).
 Proof.
   intros I. unfold keeps; cbn [fst snd]. rewrite upd_same.
@@ -543,6 +546,35 @@ Proof.
   rewrite !dl_eq in G2 by auto. lia.
 Qed.
 
+(* in-place rewrite of this's blob by its sole owner, or extension at the end of a shared one *)
+Lemma inplace_step h vs ex i s' d : Inv h vs ex -> (i < length vs)%nat ->
+  sstore s' = sstore (nth i vs sb0) -> lenN d <= bcap (getb h (sstore s')) ->
+  soff s' + slen s' <= lenN d ->
+  (blocks (getb h (sstore s')) = 1 \/ exists x, d = bdata (getb h (sstore s')) ++ x) ->
+  Inv (set_data h (sstore s') d) (upd vs i s') ex /\
+  content (set_data h (sstore s') d) s' = window (soff s') (slen s') d /\
+  others_same h (set_data h (sstore s') d) vs i /\
+  length (set_data h (sstore s') d) = length h.
+Proof.
+  intros I Hi Es Hc Hs' Hd.
+  destruct (inv_wf _ _ _ I i Hi) as [Wi _]. rewrite <- Es in Wi.
+  assert (Ho : forall j, (j < length vs)%nat -> j <> i -> sstore (nth j vs sb0) = sstore s' ->
+           soff (nth j vs sb0) + slen (nth j vs sb0) <= lenN d /\
+           window (soff (nth j vs sb0)) (slen (nth j vs sb0)) d = content h (nth j vs sb0)).
+  { intros j Hj Hn E. destruct Hd as [B|[x ->]].
+    - exfalso. rewrite Es in B. destruct (sole_owner h vs ex i I Hi B) as [S _].
+      apply (S j Hj Hn). congruence.
+    - destruct (inv_wf _ _ _ I j Hj) as [_ W2]. rewrite E in W2. unfold bsize in W2.
+      split; [rewrite lenN_app; lia|]. rewrite window_app by assumption. rewrite content_window, E. reflexivity. }
+  split; [|split; [|split]].
+  - apply Inv_set_data_upd; auto. intros j Hj Hn E. apply Ho; assumption.
+  - rewrite content_window, getb_set_data, Nat.eqb_refl by assumption. reflexivity.
+  - intros j Hj Hn. rewrite (content_window (set_data _ _ _)), getb_set_data by assumption.
+    destruct (Nat.eqb_spec (sstore (nth j vs sb0)) (sstore s')) as [E|]; [|reflexivity].
+    cbn [bdata]. apply Ho; assumption.
+  - apply length_set_data.
+Qed.
+
 (* effect of an in-place rewrite of this's blob by its sole owner, or of an extension at the end *)
 Lemma inplace_keeps h vs ex i s' d : Inv h vs ex -> (i < length vs)%nat ->
   sstore s' = sstore (nth i vs sb0) -> lenN d <= bcap (getb h (sstore s')) ->
@@ -635,8 +667,7 @@ Proof.
       - intros; lia. }
     split.
     - cbn [sstore s'] in K2. eapply (keeps_trans h vs ex i (h1, s)); cbn [fst snd]; auto.
-      + exact K1.
-      + rewrite <- Hs, upd_same. exact K2.
+      + rewrite (upd_same' _ _ _ _ Hs). exact K2.
       + left. now rewrite Hs.
       + intros k Hk Hb ->. rewrite Hs in Hb. lia.
     - intros _. repeat split; auto.
@@ -649,11 +680,260 @@ Proof.
   pose proof K1 as (J1 & J2 & J3 & J4 & J5). cbn [fst snd] in J1, J2, J3, J4, J5. rewrite <- Hs, upd_same in J1.
   destruct (reAlloc_spec alloc_cap h1 vs ex i s ns r isok J1 Hi Hs E) as [K X]. split.
   - eapply (keeps_trans h vs ex i (h1, s)); cbn [fst snd]; auto.
-    + exact K1.
-    + rewrite <- Hs, upd_same. exact K.
+    + rewrite (upd_same' _ _ _ _ Hs). exact K.
     + left. now rewrite Hs.
     + intros k Hk Hb ->. rewrite Hs in Hb. lia.
   - intros ->. destruct (X eq_refl) as (T & So' & L & O & _ & Mx & Cp). repeat split; auto.
     intros A. unfold tail in T. rewrite <- T, <- Cp, O, L. specialize (A ns). lia.
 Qed.
 End Methods2.
+
+Lemma cow_sync (alloc_cap : N -> N) h s : blocks (getb h (sstore s)) = 1 -> soff s + slen s <= bsize (getb h (sstore s)) ->
+  cow alloc_cap h s (slen s) = Ok (set_data h (sstore s) (takeN (soff s + slen s) (bdata (getb h (sstore s)))), s).
+Proof.
+  intros B W. unfold cow. rewrite (proj2 (N.eqb_eq _ _) B).
+  rewrite (proj2 (N.ltb_ge _ _)) by lia. rewrite N.ltb_irrefl, orb_false_r.
+  destruct (slen s =? npos); rewrite N.sub_diag; rewrite (proj2 (N.leb_le 0 _)) by lia; reflexivity.
+Qed.
+
+Section Methods3.
+Variable alloc_cap : N -> N.
+
+Lemma wf_content_len h s : wf h s -> lenN (content h s) = slen s.
+Proof. intros [_ W]. rewrite content_window. apply window_len. exact W. Qed.
+
+Lemma reAlloc_defined h vs ex i s ns : Inv h vs ex -> (i < length vs)%nat -> nth i vs sb0 = s ->
+  reAlloc alloc_cap h s ns <> Undef.
+Proof.
+  intros I Hi Hs. unfold reAlloc. destruct (maxSize <? ns); [discriminate|]. unfold mb_new.
+  destruct (0 <? slen s) eqn:E; [|discriminate].
+  unfold mb_append. destruct (slen s =? 0); [discriminate|]. destruct (negb _); [discriminate|].
+  destruct (inv_wf _ _ _ I i Hi) as [W1 W2]. rewrite Hs in W1, W2.
+  cbn [read_src]. rewrite getb_lock by (rewrite app_length; cbn [length]; lia).
+  destruct (Nat.eqb_spec (sstore s) (length h)); [lia|]. rewrite getb_app_old by assumption.
+  fold (window (soff s) (slen s) (bdata (getb h (sstore s)))). rewrite window_len by assumption.
+  rewrite N.ltb_irrefl. discriminate.
+Qed.
+
+Lemma cow_defined h vs ex i s ns : Inv h vs ex -> (i < length vs)%nat -> nth i vs sb0 = s ->
+  cow alloc_cap h s ns <> Undef.
+Proof.
+  intros I Hi Hs. unfold cow. fold (clamp_newsize s ns).
+  destruct (blocks (getb h (sstore s)) =? 1) eqn:B; [|eapply reAlloc_defined; eassumption].
+  destruct (_ <? _) eqn:Esz; [discriminate|]. destruct (_ <=? _); [discriminate|]. destruct (_ <=? _); [discriminate|].
+  (* the synced heap still satisfies the invariant *)
+  assert (K : keeps h vs ex i (set_data h (sstore s) (takeN (soff s + slen s) (bdata (getb h (sstore s)))), s)).
+  { destruct (cow_spec alloc_cap h vs ex i s (slen s) (set_data h (sstore s) (takeN (soff s + slen s) (bdata (getb h (sstore s)))), s) true I Hi Hs) as [K _]; [|exact K].
+    apply cow_sync; lia. }
+  destruct K as (J1 & _). cbn [fst snd] in J1. rewrite (upd_same' _ _ _ _ Hs) in J1.
+  eapply reAlloc_defined; eassumption.
+Qed.
+
+Lemma rawSpace_spec h vs ex i s n : Inv h vs ex -> (i < length vs)%nat -> nth i vs sb0 = s ->
+  match rawSpace alloc_cap h s n with
+  | Ok r => keeps h vs ex i r /\ slen (snd r) = slen s /\ (0 < n -> tail (fst r) (snd r)) /\
+            sstore (snd r) = sstore s \/ keeps h vs ex i r /\ slen (snd r) = slen s /\ (0 < n -> tail (fst r) (snd r)) /\
+            (length h <= sstore (snd r))%nat
+  | Throw r => keeps h vs ex i r
+  | Undef => False
+  end.
+Proof.
+  intros I Hi Hs. unfold rawSpace. destruct (sub32 maxSize n <? slen s).
+  { subst s. apply keeps_refl. assumption. }
+  destruct (mb_canAppend _ _ _) eqn:Ec.
+  { left. cbn [fst snd]. split; [subst s; apply keeps_refl; assumption|]. split; [reflexivity|]. split; [|reflexivity].
+    intros Hn. unfold mb_canAppend in Ec. unfold tail. lia. }
+  destruct (cow alloc_cap h s (add32 n (slen s))) as [r|r|] eqn:Ecow.
+  - destruct (cow_spec alloc_cap h vs ex i s _ r true I Hi Hs Ecow) as [K X].
+    destruct (X eq_refl) as (T & So & L & _).
+    (* same blob or a new one *)
+    unfold cow in Ecow. destruct (blocks (getb h (sstore s)) =? 1) eqn:B.
+    + destruct (_ <? _); [discriminate|].
+      destruct (_ <=? _); [injection Ecow as <-; left; split; [exact K|]; split; [exact L|]; split; [intros _; exact T|reflexivity]|].
+      destruct (_ <=? _); [injection Ecow as <-; left; split; [exact K|]; split; [exact L|]; split; [intros _; exact T|reflexivity]|].
+      right. set (h1 := set_data _ _ _) in Ecow.
+      assert (K1 : keeps h vs ex i (h1, s)).
+      { destruct (cow_spec alloc_cap h vs ex i s (slen s) (h1, s) true I Hi Hs) as [K1 _]; [|exact K1].
+        unfold h1. apply cow_sync; [lia|]. destruct (inv_wf _ _ _ I i Hi) as [_ W]. rewrite Hs in W. exact W. }
+      destruct K1 as (J1 & _ & _ & _ & J5). cbn [fst snd] in J1, J5. rewrite (upd_same' _ _ _ _ Hs) in J1.
+      destruct (reAlloc_spec alloc_cap h1 vs ex i s _ r true J1 Hi Hs Ecow) as [_ Y].
+      destruct (Y eq_refl) as (_ & _ & _ & _ & Y5 & _). split; [exact K|]. split; [exact L|]. split; [intros _; exact T|]. lia.
+    + right. destruct (reAlloc_spec alloc_cap h vs ex i s _ r true I Hi Hs Ecow) as [_ Y].
+      destruct (Y eq_refl) as (_ & _ & _ & _ & Y5 & _). split; [exact K|]. split; [exact L|]. split; [intros _; exact T|]. lia.
+  - destruct (cow_spec alloc_cap h vs ex i s _ r false I Hi Hs Ecow) as [K _]. exact K.
+  - eapply cow_defined; eassumption.
+Qed.
+
+(* a `const char *` argument that may be read after rawSpace() *)
+Definition src_ok (h : heap) (s : sbuf) (p : src) (n : N) : Prop :=
+  match p with
+  | SLit w => n <= lenN w
+  | SPtr sid so => n = 0 \/ ((sid < length h)%nat /\ so + n <= bsize (getb h sid) /\
+                            (sid <> sstore s \/ 2 <= blocks (getb h sid)))
+  end.
+
+Lemma read_src_len h s p n : src_ok h s p n -> lenN (read_src h p n) = n.
+Proof.
+  destruct p as [w|sid so]; cbn [src_ok read_src]; intros H.
+  - rewrite lenN_takeN. lia.
+  - destruct H as [->|(H1 & H2 & _)]; [now rewrite takeN_0|].
+    fold (window so n (bdata (getb h sid))). apply window_len. exact H2.
+Qed.
+
+Lemma lowAppend_spec h vs ex i s p n : Inv h vs ex -> (i < length vs)%nat -> nth i vs sb0 = s ->
+  src_ok h s p n ->
+  match lowAppend alloc_cap h s p n with
+  | Ok r => Inv (fst r) (upd vs i (snd r)) ex /\ others_same h (fst r) vs i /\
+            content (fst r) (snd r) = content h s ++ read_src h p n /\ (length h <= length (fst r))%nat
+  | Throw r => Inv (fst r) (upd vs i (snd r)) ex /\ others_same h (fst r) vs i /\
+               content (fst r) (snd r) = content h s /\ (length h <= length (fst r))%nat
+  | Undef => False
+  end.
+Proof.
+  intros I Hi Hs Hsrc. unfold lowAppend.
+  pose proof (rawSpace_spec h vs ex i s n I Hi Hs) as R.
+  destruct (rawSpace alloc_cap h s n) as [[h1 s1]|[h1 s1]|]; [| |contradiction].
+  2:{ destruct R as (J1 & J2 & J3 & J4 & J5). cbn [fst snd] in *. rewrite Hs in J2. auto. }
+  assert (R' : keeps h vs ex i (h1, s1) /\ slen s1 = slen s /\ (0 < n -> tail h1 s1) /\
+               (sstore s1 = sstore s \/ (length h <= sstore s1)%nat)).
+  { cbn [fst snd] in R. destruct R as [(A & B & C & D)|(A & B & C & D)]; auto. }
+  clear R. destruct R' as ((J1 & J2 & J3 & J4 & J5) & L & T & St). cbn [fst snd] in J1, J2, J3, J4, J5.
+  rewrite Hs in J2, J4.
+  (* the bytes the code reads now are the bytes the caller pointed at *)
+  assert (Rd : read_src h1 p n = read_src h p n).
+  { destruct p as [w|sid so]; [reflexivity|]. cbn [read_src src_ok] in *.
+    destruct Hsrc as [->|(H1 & H2 & H3)]; [now rewrite !takeN_0|]. rewrite J4; auto. }
+  pose proof (read_src_len h s p n Hsrc) as Rl.
+  unfold mb_append. destruct (n =? 0) eqn:E0.
+  { apply N.eqb_eq in E0. subst n. cbn [fst snd].
+    assert (Es : mkSBuf (sstore s1) (soff s1) (slen s1 + 0) = s1) by (destruct s1; cbn; f_equal; lia).
+    rewrite Es. apply lenN_nil in Rl. rewrite Rl, app_nil_r. auto. }
+  destruct (negb (mb_willFit (getb h1 (sstore s1)) n)) eqn:Efit.
+  { cbn [fst snd]. auto. }
+  rewrite Rd, Rl, N.ltb_irrefl. cbn [fst snd].
+  assert (Hn : 0 < n) by lia. specialize (T Hn). unfold tail in T.
+  assert (Hi1 : (i < length (upd vs i s1))%nat) by (rewrite length_upd; assumption).
+  assert (N1 : nth i (upd vs i s1) sb0 = s1) by (rewrite nth_upd, Nat.eqb_refl by assumption; reflexivity).
+  set (s2 := mkSBuf (sstore s1) (soff s1) (slen s1 + n)).
+  set (d := bdata (getb h1 (sstore s1)) ++ read_src h p n).
+  unfold mb_willFit, mb_spaceSize in Efit.
+  destruct (inv_wf _ _ _ J1 i Hi1) as [W1 W2]. rewrite N1 in W1, W2.
+  pose proof (inv_cap _ _ _ J1 _ W1) as Cap.
+  destruct (inplace_step h1 (upd vs i s1) ex i s2 d J1 Hi1) as (K1 & K2 & K3 & K4); cbn [sstore soff slen s2]; rewrite ?N1.
+  - reflexivity.
+  - unfold d. rewrite lenN_app, Rl. unfold bsize in *. lia.
+  - unfold d. rewrite lenN_app, Rl. unfold bsize in *. lia.
+  - right. exists (read_src h p n). reflexivity.
+  - change (sstore s2) with (sstore s1) in K1, K2, K3, K4.
+    rewrite upd_upd in K1. split; [exact K1|]. split; [|split].
+    + intros j Hj Hn'. specialize (K3 j). rewrite length_upd, nth_upd in K3 by assumption.
+      destruct (Nat.eqb_spec j i); [contradiction|]. rewrite K3 by assumption. apply J3; assumption.
+    + rewrite K2. unfold d. change (soff s2) with (soff s1). change (slen s2) with (slen s1 + n).
+      rewrite <- Rl at 1. rewrite window_tail_app by (unfold bsize in T; lia).
+      rewrite <- content_window, J2. reflexivity.
+    + lia.
+Qed.
+End Methods3.
+
+(* ------------------------------------------------------------------ *)
+(* operations on variables refine operations on independent values     *)
+(* ------------------------------------------------------------------ *)
+Definition ex0 : nat -> N := fun k => dl 0 k.       (* the static InitialStore pointer *)
+Definition absv (st : state) : list bytes := map (content (hp st)) (vars st).
+Definition SInv (st : state) : Prop := Inv (hp st) (vars st) ex0.
+
+Lemma content_sb0 h : content h sb0 = [].
+Proof. rewrite content_window. apply window_zero. Qed.
+Lemma nth_map_content h vs k : nth k (map (content h) vs) [] = content h (nth k vs sb0).
+Proof. rewrite <- (content_sb0 h). apply map_nth. Qed.
+Lemma nth_absv st j : nth j (absv st) [] = content (hp st) (getv st j).
+Proof. unfold absv, getv. rewrite <- (content_sb0 (hp st)). apply map_nth. Qed.
+
+Lemma absv_upd h h' vs i s' c : (i < length vs)%nat -> others_same h h' vs i -> content h' s' = c ->
+  map (content h') (upd vs i s') = upd (map (content h) vs) i c.
+Proof.
+  intros Hi Ho Hc. apply nth_ext with (d := []) (d' := []).
+  - now rewrite !map_length, !length_upd, map_length.
+  - intros k Hk. rewrite map_length, length_upd in Hk.
+    rewrite nth_upd by (rewrite map_length; assumption).
+    rewrite !nth_map_content, nth_upd by assumption.
+    destruct (Nat.eqb_spec k i) as [->|Hn]; [assumption|]. apply Ho; assumption.
+Qed.
+Lemma absv_same h h' vs : (forall j, (j < length vs)%nat -> content h' (nth j vs sb0) = content h (nth j vs sb0)) ->
+  map (content h') vs = map (content h) vs.
+Proof.
+  intros H. apply nth_ext with (d := []) (d' := []); [now rewrite !map_length|].
+  intros k Hk. rewrite map_length in Hk. rewrite !nth_map_content. apply H; assumption.
+Qed.
+
+(* only this's offset/length change *)
+Lemma Inv_upd_fields h vs ex i s' : Inv h vs ex -> (i < length vs)%nat ->
+  sstore s' = sstore (nth i vs sb0) -> soff s' + slen s' <= bsize (getb h (sstore s')) ->
+  Inv h (upd vs i s') ex.
+Proof.
+  intros I Hi Es W. pose proof I as [I1 I2 I3 I4]. constructor; auto.
+  - intros k Hk. rewrite I1 by assumption. pose proof (refs_upd vs i s' k Hi) as R. rewrite Es in R. lia.
+  - intros j Hj. rewrite length_upd in Hj. rewrite nth_upd by assumption.
+    destruct (Nat.eqb_spec j i) as [->|]; [|auto]. destruct (I3 i Hi) as [W1 _]. split; [rewrite Es; assumption|assumption].
+Qed.
+
+Lemma sb_clear_spec h vs ex i s h' s' : Inv h vs ex -> (i < length vs)%nat -> nth i vs sb0 = s ->
+  sb_clear h s = (h', s') ->
+  Inv h' (upd vs i s') ex /\ content h' s' = [] /\ others_same h h' vs i /\ length h' = length h /\
+  sstore s' = sstore s /\ (forall k, k <> sstore s -> getb h' k = getb h k) /\
+  (2 <= blocks (getb h (sstore s)) -> h' = h).
+Proof.
+  intros I Hi Hs. unfold sb_clear. intros [= <- <-].
+  destruct (inv_wf _ _ _ I i Hi) as [W1 _]. rewrite Hs in W1.
+  destruct (blocks (getb h (sstore s)) =? 1) eqn:B.
+  - apply N.eqb_eq in B. set (s' := mkSBuf (sstore s) 0 0).
+    destruct (inplace_step h vs ex i s' [] I Hi) as (K1 & K2 & K3 & K4); cbn [sstore soff slen s' lenN]; rewrite ?Hs; auto; try lia.
+    change (sstore s') with (sstore s) in *.
+    split; [exact K1|]. split; [rewrite K2; apply window_zero|]. split; [exact K3|]. split; [exact K4|].
+    split; [reflexivity|]. split.
+    + intros k Hk. rewrite getb_set_data by assumption. destruct (Nat.eqb_spec k (sstore s)); [contradiction|reflexivity].
+    + intros. lia.
+  - split; [apply Inv_upd_fields; cbn [sstore soff slen]; auto; try lia; now rewrite Hs|].
+    split; [rewrite content_window; apply window_zero|]. split; [intros j _ _; reflexivity|]. auto.
+Qed.
+
+(* chop arguments for which pos+n does not wrap around 2^32 *)
+Definition chop_args_ok (len pos n : N) : Prop :=
+  n = npos \/ (if (pos =? npos) || (len <? pos) then len else pos) + n < two32.
+
+Lemma sb_chop_fields (h : heap) (s : sbuf) pos0 n0 : chop_args_ok (slen s) pos0 n0 -> slen s < npos ->
+  let pos := N.min pos0 (slen s) in
+  let n := N.min n0 (slen s - pos) in
+  sb_chop h s pos0 n0 = if (pos =? slen s) || (n =? 0) then sb_clear h s else (h, mkSBuf (sstore s) (soff s + pos) n).
+Proof.
+  intros Hok Hl. unfold sb_chop, chop_args_ok, add32, npos, two32, gen_npos in *. cbn zeta.
+  set (pos := if (pos0 =? 4294967295) || (slen s <? pos0) then slen s else pos0) in *.
+  assert (Ep : pos = N.min pos0 (slen s)).
+  { unfold pos. destruct ((pos0 =? 4294967295) || (slen s <? pos0)) eqn:E; lia. }
+  rewrite <- Ep.
+  set (n := if (n0 =? 4294967295) || (slen s <? (pos + n0) mod 4294967296) then slen s - pos else n0).
+  assert (En : n = N.min n0 (slen s - pos)).
+  { unfold n. destruct Hok as [->|Hok]; [rewrite N.eqb_refl; cbn [orb]; lia|].
+    rewrite N.mod_small by assumption.
+    destruct ((n0 =? 4294967295) || (slen s <? pos + n0)) eqn:E; lia. }
+  rewrite <- En. reflexivity.
+Qed.
+
+Lemma window_clip off len (d : bytes) pos0 n0 : off + len <= lenN d ->
+  window (off + N.min pos0 len) (N.min n0 (len - N.min pos0 len)) d = takeN n0 (dropN pos0 (window off len d)).
+Proof.
+  intros H. fold (window pos0 n0 (window off len d)).
+  set (pos := N.min pos0 len). set (n := N.min n0 (len - pos)).
+  rewrite <- (window_window off len pos n) by lia.
+  unfold window at 1 3. set (c := takeN len (dropN off d)).
+  assert (Lc : lenN c = len) by (apply window_len; assumption).
+  rewrite !takeN_firstn, !dropN_skipn.
+  destruct (N.leb_spec pos0 len) as [Hp|Hp].
+  - replace pos with pos0 by lia. rewrite lenN_length in Lc.
+    destruct (N.leb_spec n0 (len - pos0)) as [Hq|Hq].
+    + replace n with n0 by lia. reflexivity.
+    + rewrite !firstn_all2 by (rewrite skipn_length; lia). reflexivity.
+  - rewrite (skipn_all2 (n := N.to_nat pos0)) by (rewrite lenN_length in Lc; lia).
+    rewrite (skipn_all2 (n := N.to_nat pos)) by (rewrite lenN_length in Lc; lia).
+    now rewrite !firstn_nil.
+Qed.
